@@ -12,7 +12,7 @@ PROPERTY = 'C07'
 LEVEL = 'exploration'
 NATIVE_VARIANT = 'opt'
 GEOMS = ['page-edge', 'cache-alias', 'window-cut', 'far', 'top', 'magic', 'many', 'gaps', 'compact', 'w8',
-         'cache-alias', 'page-edge', 'window-cut']
+         'cache-alias', 'page-edge', 'window-cut', 'many-pages']
 
 
 def plan(tier: str, seed: int) -> List[Dict[str, Any]]:
@@ -44,7 +44,10 @@ def run_shard(spec: Dict[str, Any], journal: Any) -> Dict[str, Any]:
     for index in range(spec['cases']):
         geom = GEOMS[index % len(GEOMS)]
         width = (64, 32, 16, 8)[(index // len(GEOMS)) % 4]
-        case = imagegen.generate_case(rng, geom, width, max_ops=3000)
+        if index % 40 == 17:
+            case = imagegen.page_walk_case(rng, rng.choice([32, 64, 64]), rng.choice([20, 33, 48, 70, 130, 300]), rng.choice([2, 3]))
+        else:
+            case = imagegen.generate_case(rng, geom, width, max_ops=3000)
         configs = enginecmp.c07_configs(rng, case, wide=wide)
         found, ref = enginecmp.compare_case(case, configs, rng, check_memory=True, check_ring=True,
                                             counters=counters, journal=journal)
